@@ -178,6 +178,23 @@ example : sameEntry ⟨[], 0, "application/octet-stream".toList, [⟨"3,00016370
     (afterEntry (beforeEntry ⟨[], 0, "application/octet-stream".toList, [⟨"3,0001637037d6".toList, none, [], none, "p"⟩], []⟩)) = true := by
   decide +kernel
 
+/-! ### hard links: lookup and native listing disagree (known finding) -/
+
+/-- FULL-STRENGTH "equal via lookup and via listing" is FALSE for hard links — known finding
+    Filer.ListDirectoryEntries/hard-link-not-resolved: after a second link of the file was written
+    (`shared`), lookup resolves the link, the native prefixed listing returns the stale own copy -/
+theorem hardlink_listing_stale_witness :
+    let own : Entry := ⟨["1", "1", "420", "0", "0", "-", "-", "0", "-", "-", "-", "-", "-", "5"], 420, [], [], ["-", "01aa", "1", "6331", "-"]⟩
+    let shared : Entry := ⟨["1", "1", "420", "0", "0", "-", "-", "0", "-", "-", "-", "-", "-", "7"], 420, [], [], ["-", "01aa", "2", "63326332", "-"]⟩
+    readResolved own (some shared) = shared ∧ readRaw own (some shared) = own ∧ sameEntry shared (readRaw own (some shared)) = false := by
+  decide +kernel
+
+/-- without a hard link id both read paths agree up to `AfterEntryDeserialization`, i.e. on every effective file id
+    (`find_returns_written` / `list_returns_written` above) -/
+theorem readResolved_no_hardlink (own : Entry) (shared : Option Entry) (h : hardLinkId own = "-") :
+    readResolved own shared = afterEntry (readRaw own shared) := by
+  unfold readResolved readRaw; rw [if_pos h]
+
 /-! ### canonical file ids -/
 
 /-- what `parseFid` returns is in range -/
